@@ -26,3 +26,16 @@ Theorem c10_relabelling D (pos : nat -> vec) (num : nat -> nat) (phi psi : nat -
   (matches D (fun a => pos (psi a)) (fun a => num (psi a)) g (phi i) (phi j) <-> matches D pos num g i j).
 Proof. exact (matches_under_relabelling D pos num phi psi g i j). Qed.
 Print Assumptions c10_relabelling.
+
+(** A unimodular change of the lattice basis (numerators p -> A p, operation (r, s) -> (A r B, A s) with B the
+    integer inverse of A) leaves the relation unchanged as well: the same atom permutation represents the operation
+    in both descriptions, for every integer A with an integer inverse (shears of any size included). *)
+Theorem c10_unimodular_basis_change D (pos : nat -> vec) (num : nat -> nat) (A B : mat) g i j :
+  0 < D -> mulmm B A = ident ->
+  (matches D (fun a => mulmv A (pos a)) num (conj_op A B g) i j <-> matches D pos num g i j).
+Proof. intros HD. exact (matches_invariant_under_unimodular D HD pos num A B g i j). Qed.
+Print Assumptions c10_unimodular_basis_change.
+
+(** non-vacuity: a shear with its inverse *)
+Example c10_unimodular_ex : mulmm ((1, 0, 0), (-2, 1, 0), (-7, 3, 1)) ((1, 0, 0), (2, 1, 0), (1, -3, 1)) = ident.
+Proof. reflexivity. Qed.
